@@ -16,7 +16,7 @@ def rand_value(rng, for_file=False):
         return rng.choice([0.0, -0.0, 1.0, 0.1, 1e-300, 1e300, 5e-324, 2.5e-7, 123456789.123456789, float(rng.randint(-99, 99)) / 7, rng.uniform(-1e6, 1e6), 1e22, 1e16])
     if k < 0.7 and not for_file:
         return rng.choice(['1_0', '+5', '1e5', ' 12 ', '0x10', 'nan', '-inf', '3.', '.5', '1 2'])
-    return rng.choice(['abc', 'P21/c', 'file.par', 'x', 'None', 'True', 'tick', '/data/id11', 'O-rings', 'é'.encode('ascii', 'ignore').decode() or 'e'])
+    return rng.choice(['abc', 'P21/c', 'file.par', 'x', 'None', 'True', 'tick', '/data/id11', 'O-rings', 'run#3', '#tag', 'a=b;c', '%s', '"q"', 'e'])
 
 
 class Model(object):
@@ -250,7 +250,7 @@ def pre_build(ctx):
     # every string that occurs anywhere as a value may be coerced: tabulate float()/int() for the string literals in the file
     import re as _re
     allstr = set()
-    for v in [rand_value(rng) for _ in range(400)] + ['1_0', '+5', '1e5', ' 12 ', '0x10', 'nan', '-inf', '3.', '.5', '1 2', 'abc', 'P21/c', 'file.par', 'x', 'None', 'True', 'tick', '/data/id11', 'O-rings', 'e']:
+    for v in [rand_value(rng) for _ in range(400)] + ['1_0', '+5', '1e5', ' 12 ', '0x10', 'nan', '-inf', '3.', '.5', '1 2', 'abc', 'P21/c', 'file.par', 'x', 'None', 'True', 'tick', '/data/id11', 'O-rings', 'run#3', '#tag', 'a=b;c', '%s', '"q"', 'e']:
         if isinstance(v, str):
             allstr.add(v)
     pf, pi = [], []
